@@ -130,6 +130,30 @@ NA = {
 }
 
 
+# clauses added while strengthening the checks against the second round of seeded changes (DESIGN.md §12)
+ADDENDA = {
+    "C01": " A container decoder may read its elements directly (bypassing the type dispatcher) only for element classes whose handler returns the raw word (R01.8); a length prefix counts the units the loop transfers (characters vs. encoded bytes).",
+    "C02": " The masked-write rule follows the value through locals and accepts masking at every call site.",
+    "C03": " No `<<` by a variable count is evaluated in a type narrower than the one its value is converted to (fcp::Buffer).",
+    "C04": " The name prefix received by a layout step is handed on to every layout step it calls and the leaf name is built from it (R04.7).",
+    "C05": " Each bus is written to directory / (bus name + constant suffix) (R05.4).",
+    "C06": " Every run-time handler applies the bit-field primitive to its own (start, length); no byte-granular addressing that drops start % 8; no symmetric clamp on the encode value path; signedness is decided from the type class, not the type name (R06.1, R06.7).",
+    "C07": " The fields/signals of a binding are filters of its children by kind (the grammar allows any interleaving).",
+    "C09": " The size check lays the message out with the encoder configuration the plug-in's writer emits with (R09.5).",
+    "C10": " Any call that reaches a plug-in's generate() counts as gated code; the pre-gate region is computed by dominance inside generate.",
+    "C11": " Includes unguarded pop()/[0]/[-1] on a local list that starts empty, and cited files passed through helpers that receive the lark exception.",
+    "C13": " The JSON value category (signed / unsigned / always-an-array) of each run-time decode handler equals that of the static wrapper's DecodeJson, from clang types of the static headers (R13.6); values the loader computes per declaration do not carry state between declarations.",
+    "C14": " Signal start/length in both writers are the leaf's own extent of the tiling layout (R14.4).",
+    "C15": " Orders produced by helper functions are followed; the order is not cached at module level (R15.3).",
+    "C16": " Decoded element counts are the unsigned word that was read (R16.4).",
+    "C19": " Unknown template variables are instantiated as opaque ints so that the typed rules still apply.",
+    "C20": " The module read is followed into a one-level helper and may not be memoised.",
+}
+for _pid, _txt in ADDENDA.items():
+    _t = CLAIMS[_pid]
+    CLAIMS[_pid] = (_t[0], _t[1] + _txt, _t[2], _t[3])
+
+
 def main() -> int:
     props = [json.loads(l) for l in open(os.path.join(HERE, "properties.jsonl"))]
     checks, na = [], []
